@@ -497,3 +497,37 @@ def r1_residuals(method, Zrow, Xrow, P, F_repo, nel, na, nb):
         repro = max(repro, float(np.abs(occ * (v[:, :n] @ v[:, :n].T) - p).max()))
         dF = max(dF, float(np.abs(f - fr).max()))
     return {"commutator": comm, "reproduction": repro, "gap": min(gaps) if gaps else None, "dF": dF, "nbas": len(idx)}
+
+
+def r1_singlet_stability(method, Z, X, P):
+    """lowest eigenvalue (eV) of the real singlet RHF stability matrix A+B at the closed-shell density P (compact
+    or padded layout of ONE molecule), built from the reference model's dense integrals and the orbitals of the
+    reference Fock matrix at P.  Negative => the SCF solution is a saddle point, not a minimum.
+    -> (lambda_min, gap) or None when the reference model does not cover the method."""
+    if method not in R1_METHODS:
+        return None
+    from vlib.ref import nddo
+
+    Z = [int(z) for z in Z if z > 0]
+    X = np.asarray(X, float)[: len(Z)]
+    mdl = nddo.Model(method, Z, X)
+    P = np.asarray(P, float)
+    if P.shape[0] != mdl.nao:
+        idx = real_orbital_index(Z)
+        P = P[np.ix_(idx, idx)]
+    F = mdl.fock_rhf(P)
+    e, v = np.linalg.eigh(0.5 * (F + F.T))
+    no = int(round(np.trace(P) / 2.0))
+    nv = len(e) - no
+    if no <= 0 or nv <= 0:
+        return None
+    Co, Cv, eo, ev = v[:, :no], v[:, no:], e[:no], e[no:]
+    eri = mdl.eri
+    iajb = np.einsum("mi,na,mnls,lj,sb->iajb", Co, Cv, eri, Co, Cv, optimize=True)
+    ijab = np.einsum("mi,nj,mnls,la,sb->ijab", Co, Co, eri, Cv, Cv, optimize=True)
+    # A = d(e_a - e_i) + 2(ia|jb) - (ij|ab);  B = 2(ia|jb) - (ib|ja)
+    M = 4.0 * iajb - ijab.transpose(0, 2, 1, 3) - iajb.transpose(0, 3, 2, 1)
+    M = M.reshape(no * nv, no * nv)
+    M = M + np.diag((ev[None, :] - eo[:, None]).ravel())
+    lam = np.linalg.eigvalsh(0.5 * (M + M.T))
+    return float(lam[0]), float(ev[0] - eo[-1])
